@@ -103,9 +103,6 @@ def list_variants(exes):
 # operation-sequence generators.  A profile = (kind, cfg, offered ops): all variants of a profile get the same
 # sequences and share one run of the model.
 
-K_KEYED1 = ("era", "eraw", "eraf", "erafw", "unl", "unx", "ext", "extw", "con", "conw", "fnd", "fndw", "get", "getw")
-
-
 class Gen:
     """one stream of sequences for a profile; every inserted object gets a fresh value (its client id)"""
 
@@ -280,30 +277,29 @@ def sequences_for(ctx, prof, rng):
 
 
 def exhaustive_for(prof, maxlen, nkeys=3):
-    """all sequences of <= maxlen operations over nkeys keys (values = position, so they are fresh)"""
+    """all sequences of <= maxlen operations over nkeys keys (values = position in the sequence, so they are fresh)"""
     kind, cfg, ops = prof
     alpha = []
     if kind == "K":
         for o in ops:
-            if o in ("ins", "insf"):
+            if o == "ins" or (o == "ups" and "upd" not in ops and False):
                 alpha += ["%s:%d:V" % (o, k) for k in range(nkeys)]
-            elif o in ("upd",):
+            elif o == "upd" or (o == "ups" and "upd" not in ops):
                 alpha += ["%s:%d:V:%d" % (o, k, a) for k in range(nkeys) for a in (0, 1)]
-            elif o in ("era", "eraf", "ext", "unl", "con", "fnd", "get"):
+            elif o in ("era", "ext", "unl", "con"):
                 alpha += ["%s:%d" % (o, k) for k in range(nkeys)]
-            elif o in ("size", "empty", "clear", "xmin", "xmax", "iter", "unx"):
-                alpha.append(o if o != "unx" else "unx:0")
+            elif o in ("size", "clear", "xmin", "iter"):
+                alpha.append(o)
     else:
         for o in ops:
             if o in ("push", "pushf"):
-                alpha += ["%s:%d" % (o, x) for x in ((0, 1, 2) if cfg[0] == 3 else ("V",))]
+                alpha += ["%s:%s" % (o, x) for x in (("0", "1", "2") if cfg[0] == 3 else ("V",))]
             elif o in ("pop", "popb", "size", "empty", "clear"):
                 alpha.append(o)
     seqs = []
-    # keep the alphabet small enough that maxlen stays affordable
     n = 0
     for L in range(1, maxlen + 1):
-        if len(alpha) ** L > 400000:
+        if len(alpha) ** L > 450000:
             break
         for tup in itertools.product(alpha, repeat=L):
             seqs.append(("x%d" % n, [t.replace("V", str(i + 1)) for i, t in enumerate(tup)], {"stream": "exhaustive", "keys": nkeys}))
@@ -382,11 +378,6 @@ def seg_model_input(seqs, impl):
                 toks.append(o)
         out.append((sid, toks, meta))
     return out
-
-
-def seg_expected(ops, mline, iline):
-    """expected implementation line for a S-kind op given the model's verdict"""
-    return None
 
 
 def first_mismatch(kind, seqs, expected, observed):
@@ -586,16 +577,23 @@ def run(ctx):
     exhaustive = {}
     if ctx.thorough() and not os.environ.get("C20_NO_EXHAUSTIVE"):
         reps = pick_representatives(variants)
-        for v in reps:
-            prof = profile_of(v)
-            seqs, asz = exhaustive_for(prof, 5 if v["kind"] != "K" else 4)
+
+        def exh(v):
+            seqs, asz = exhaustive_for(profile_of(v), 6 if v["kind"] != "K" else 4)
             if not seqs:
-                continue
+                return v, [], asz, None
             mm, _ = runner.check(v, seqs, "exh-" + v["name"][:40])
-            exhaustive[v["name"]] = {"sequences": len(seqs), "alphabet": asz, "max_len": max(len(s[1]) for s in seqs)}
-            evaluations += len(seqs)
-            if mm:
-                mismatches.append((v, seqs, "", "", mm))
+            return v, seqs, asz, mm
+
+        with ThreadPoolExecutor(max_workers=max(2, vcheck.NCPU // 2)) as ex:
+            for v, seqs, asz, mm in ex.map(exh, reps):
+                if not seqs:
+                    continue
+                exhaustive[v["name"]] = {"sequences": len(seqs), "alphabet": asz, "max_len": max(len(s[1]) for s in seqs)}
+                evaluations += len(seqs)
+                if mm:
+                    mismatches.append((v, seqs, "", "", mm))
+        ctx.log("exhaustive small scope: %d variants" % len(exhaustive))
 
     # ---- report
     # one replay per container family first (different families usually mean different defects), at most 10
@@ -626,6 +624,11 @@ def run(ctx):
                              "expected": mm2[2], "observed": mm2[3], "original_sequence_length": len(ops), "hp": hp, "dhp": dhp, "note": note,
                              "replay_cmd": "bin/check C20 --replay <this file>"},
                       signature=sig)
+    if ctx.thorough() and res.ok and not os.environ.get("C20_SKIP_COQ"):
+        rc, out = vcheck.coqchk("LV.Properties.Properties_C20")
+        ctx.coverage["coqchk"] = "ok" if rc == 0 else out[-400:]
+        if rc != 0:
+            ctx.violation("coqchk rejects LV.Properties.Properties_C20", {"coqchk": out[-1500:]}, no_input=True)
     if not res.ok:
         ctx.violation("Coq obligations of C20 do not check: %s" % (res.failed[:2],), {"theorem": [f[2] for f in res.failed], "errors": res.failed[:3]}, no_input=True)
 
